@@ -148,3 +148,95 @@ def add_obligation(kind):
 
 obligation('C13', 'C13-2a PendingTransactionsForAccount::add preconditions')(add_obligation('pending'))
 obligation('C13', 'C13-2b ParkedTransactionsForAccount::add preconditions')(add_obligation('parked'))
+
+
+# ----------------------------------------------------------------------------------------------------------------- C13-3
+def container_engine(acct_ty):
+    def h_addr(ctx):
+        t = ctx.ex.deref_val(ctx.st, ctx.args[0])
+        return [(None, B.cell(t.attrs['addr']))]
+
+    def h_new(ctx):
+        return [(None, B.struct(ctx.ex, acct_ty, txs=M.new_map('BTreeMap<u32, TimemarkedTransaction>', [])))]
+    return engine(hooks=[(re.compile(r'^(mempool::transactions_container::)?TimemarkedTransaction::address_bytes$'), h_addr),
+                         (re.compile(r'TransactionsForAccount>::new$|^(mempool::transactions_container::)?TransactionsForAccount::new$'), h_new)])
+
+
+def outer_view(ex, p, cont):
+    m = B.fld(ex, p, cont, 'txs', 'HashMap')
+    out = []
+    for k, v in m.attrs['items']:
+        out.append((k, [t for _, t in container_view(ex, p, ex.deref_val(p, v))]))
+    return out
+
+
+def container_obligation(kind):
+    def ob(run):
+        acct_ty = 'PendingTransactionsForAccount' if kind == 'pending' else 'ParkedTransactionsForAccount'
+        cont_ty = 'PendingTransactions' if kind == 'pending' else 'ParkedTransactions'
+        ex = container_engine(acct_ty)
+        ex.const_params = {'MAX_TX_COUNT': z3.BitVecVal(15, 64), 'MAX_TX_COUNT_PER_ACCOUNT': z3.BitVecVal(15, 64), 'MAX_PARKED_TXS_PER_ACCOUNT': z3.BitVecVal(15, 64)}
+        f = ex.find(r'^(mempool::transactions_container::)?TransactionsContainer::add$')
+        run.bound(container='0..2 accounts holding 1..2 transactions each (every shape), arbitrary total limit', new_tx='arbitrary signer (equal to an existing account or new), nonce, cost', per_account_limit='15 (the deployed constant)')
+        run.assume('accounts in the container are keyed by the signer of the transactions they hold; map key == nonce; a single fee asset')
+        n_ok = 0
+        shapes = [(), (1,), (2,), (1, 1), (2, 1), (2, 2)]
+        for shape in shapes:
+            accts = []; pre = []; pc = []
+            for ai, cnt in enumerate(shape):
+                addr = z3.BitVec(f'acct{ai}', 160)
+                olds = [mk_ttx(ex, f'a{ai}t{j}') for j in range(cnt)]
+                for o in olds:
+                    o[0].attrs['addr'] = addr
+                pc += [z3.ULT(olds[j][1], olds[j + 1][1]) for j in range(cnt - 1)]
+                inner = B.struct(ex, acct_ty, txs=M.new_map('BTreeMap<u32, TimemarkedTransaction>', [(n, t) for t, n, _, _ in olds]))
+                accts.append((addr, inner, olds)); pre.append((addr, [f'a{ai}t{j}' for j in range(cnt)]))
+            pc += [accts[i][0] != accts[j][0] for i in range(len(accts)) for j in range(i + 1, len(accts))]
+            outer = M.new_map(f'HashMap<[u8; 20], {acct_ty}>', [(a, inner) for a, inner, _ in accts])
+            maxc = z3.BitVec('max_tx_count', 64)
+            fields = dict(txs=outer, tx_ttl=z3.BitVec('ttl', 96))
+            if kind == 'parked':
+                fields['max_tx_count'] = maxc
+            cont = B.struct(ex, cont_ty, **fields)
+            new, n, c, nid = mk_ttx(ex, 'new'); signer = z3.BitVec('new_signer', 160); new.attrs['addr'] = signer
+            acct = z3.BitVec('account_nonce', 32); bal = z3.BitVec('balance', 128)
+            balances = M.new_map('HashMap<IbcPrefixed, u128>', [(ASSET, bal)])
+            st = ex.start(f, [B.cell(cont), new, acct, B.cell(balances)])
+            st.pc += pc
+            total = sum(shape)
+            for i, p in enumerate(run.explore(ex, st, allow_havoc=(r'^Arguments::|fmt::',))):
+                lab = f'[{kind}, shape {shape}, path {i}]'
+                if p.kind != 'return':
+                    run.prove(f'no panic {lab}', p.pc, z3.BoolVal(False), detail=p.info); continue
+                post = outer_view(ex, p, ex.read(p, p.roots['args'][0].loc))
+                res = p.result.discr
+                run.sample({'kind': kind, 'shape': list(shape), 'path': i, 'result': res, 'after': [t for _, t in post]})
+                if res == 'Ok':
+                    n_ok += 1
+                    # where did the new transaction go?
+                    homes = [k for k, tags in post if 'new' in tags]
+                    others_same = sorted(tuple(t for t in tags if t != 'new') for _, tags in post if [t for t in tags if t != 'new']) == sorted(tuple(t) for _, t in pre)
+                    claim = [z3.BoolVal(len(homes) == 1 and others_same and sum(len(t) for _, t in post) == total + 1)]
+                    if len(homes) == 1:
+                        claim.append(homes[0] == signer)
+                        for k, tags in post:
+                            olds_here = [t for t in tags if t != 'new']
+                            if olds_here:
+                                orig = [a for a, tg in pre if tg == olds_here]
+                                claim.append(z3.BoolVal(len(orig) == 1))
+                                if orig: claim.append(k == orig[0])
+                    if kind == 'parked':
+                        claim.append(z3.ULT(z3.BitVecVal(total, 64), maxc))
+                    run.prove(f'accepted => exactly one transaction added, filed under its own signer, every other transaction stays where it was' + (', and the total was below the pool limit before (so it is within the limit after)' if kind == 'parked' else '') + f' {lab}',
+                              p.pc, z3.And(*claim))
+                else:
+                    same = sorted((str(k), tuple(t)) for k, t in post if t) == sorted((str(k), tuple(t)) for k, t in pre)
+                    run.prove(f'refused => container unchanged {lab}', p.pc, z3.BoolVal(same))
+        if not n_ok:
+            raise Inconclusive('vacuity: no accepting path')
+        run.require_reached(*run.cur.reach)
+    return ob
+
+
+obligation('C13', 'C13-3a PendingTransactions::add (container): filed under the signer, nothing else moves')(container_obligation('pending'))
+obligation('C13', 'C13-3b ParkedTransactions::add (container): total pool limit respected, filed under the signer, nothing else moves')(container_obligation('parked'))
